@@ -428,6 +428,54 @@ def _unenum(st):
     return idx
 
 
+ENUM = [os.environ.get("VERIF_ENUM", "1") != "0"]
+
+
+def _enum_to_range(st):
+    """`for i, v in enumerate(X): body` with X a plain path that the body does not rebind or resize becomes
+    `for i in range(len(X)): body[v := X[i]]` (one spelling for indexed traversals)"""
+    if not ENUM[0]:
+        return None
+    if not (isinstance(st, ast.For) and isinstance(st.iter, ast.Call) and isinstance(st.iter.func, ast.Name) and st.iter.func.id == "enumerate"
+            and len(st.iter.args) == 1 and not st.iter.keywords and isinstance(st.target, ast.Tuple) and len(st.target.elts) == 2
+            and isinstance(st.target.elts[0], ast.Name) and isinstance(st.target.elts[1], ast.Name) and not st.orelse):
+        return None
+    X = st.iter.args[0]
+    xp = access_path(X)
+    if xp is None or any(isinstance(n, ast.Subscript) for n in ast.walk(X)):
+        return None
+    idx, v = st.target.elts[0].id, st.target.elts[1].id
+    if idx == v or root_name(X) in (idx, v):
+        return None
+    for b in st.body:
+        for n in ast.walk(b):
+            if isinstance(n, ast.Name) and n.id in (idx, v) and not isinstance(n.ctx, ast.Load):
+                return None
+            if isinstance(n, (ast.Name, ast.Attribute, ast.Subscript)) and not isinstance(n.ctx, ast.Load):
+                q = access_path(n)
+                if q is not None and (q == xp or xp.startswith(q + ".") or q.startswith(xp + "[")):
+                    return None      # the sequence (or an element slot of it) is stored to inside the loop
+                if q is None and root_name(n) == root_name(X):
+                    return None
+            if isinstance(n, ast.Call) and isinstance(n.func, ast.Attribute) and n.func.attr in _MUTATORS and access_path(n.func.value) == xp:
+                return None
+            if isinstance(n, (ast.FunctionDef, ast.AsyncFunctionDef, ast.Lambda)):
+                return None
+    elem = ast.Subscript(value=copy.deepcopy(X), slice=ast.Name(id=idx, ctx=ast.Load()), ctx=ast.Load())
+
+    class S(ast.NodeTransformer):
+        def visit_Name(self, n):
+            if n.id == v and isinstance(n.ctx, ast.Load):
+                return _loc(copy.deepcopy(elem), n)
+            return n
+    new = ast.For(target=ast.Name(id=idx, ctx=ast.Store()),
+                  iter=ast.Call(func=ast.Name(id="range", ctx=ast.Load()),
+                                args=[ast.Call(func=ast.Name(id="len", ctx=ast.Load()), args=[copy.deepcopy(X)], keywords=[])], keywords=[]),
+                  body=[S().visit(b) for b in st.body], orelse=[])
+    STATS["enum_range"] = STATS.get("enum_range", 0) + 1
+    return [_loc(new, st)]
+
+
 def _terminates(stmts):
     return bool(stmts) and isinstance(stmts[-1], (ast.Return, ast.Raise, ast.Continue, ast.Break))
 
@@ -503,6 +551,54 @@ def _while_to_for(stmts, k, fn_tail_reads):
     return _loc(loop, w), init
 
 
+def _counter_to_enum(stmts, k, fn_tail_reads):
+    """stmts[k] is `for v in X: ...; c += 1` with `c = K` (literal) as the nearest preceding statement on c and c dead
+    afterwards: the replacement `for c, v in enumerate(X, K)` and the index of the initialisation, or None"""
+    lp = stmts[k]
+    if lp.orelse or len(lp.body) < 2 or not isinstance(lp.target, (ast.Name, ast.Tuple)):
+        return None
+    if isinstance(lp.iter, ast.Call) and isinstance(lp.iter.func, ast.Name) and lp.iter.func.id in ("enumerate", "range"):
+        return None
+    last = lp.body[-1]
+    if not (isinstance(last, ast.AugAssign) and isinstance(last.target, ast.Name) and isinstance(last.op, ast.Add)
+            and isinstance(last.value, ast.Constant) and last.value.value == 1 and not isinstance(last.value.value, bool)):
+        return None
+    c = last.target.id
+    if any(isinstance(n, ast.Name) and n.id == c for n in ast.walk(lp.target)) or any(isinstance(n, ast.Name) and n.id == c for n in ast.walk(lp.iter)):
+        return None
+    inner = ast.Module(body=lp.body[:-1], type_ignores=[])
+    for n in ast.walk(inner):
+        if isinstance(n, ast.Continue):
+            return None
+        if isinstance(n, ast.Name) and n.id == c and isinstance(n.ctx, (ast.Store, ast.Del)):
+            return None
+        if isinstance(n, (ast.FunctionDef, ast.Lambda)):
+            return None
+    init = None
+    for j in range(k - 1, -1, -1):
+        s_ = stmts[j]
+        if isinstance(s_, ast.Assign) and len(s_.targets) == 1 and isinstance(s_.targets[0], ast.Name) and s_.targets[0].id == c:
+            init = j
+            break
+        if not isinstance(s_, (ast.Assign, ast.AugAssign, ast.Expr)) or any(isinstance(n, ast.Name) and n.id == c for n in ast.walk(s_)):
+            return None
+    if init is None:
+        return None
+    start = stmts[init].value
+    if not (isinstance(start, ast.Constant) and isinstance(start.value, int) and not isinstance(start.value, bool)):
+        return None
+    for s_ in stmts[k + 1:]:
+        for n in ast.walk(s_):
+            if isinstance(n, ast.Name) and n.id == c:
+                return None
+    if fn_tail_reads(c):
+        return None
+    call = ast.Call(func=ast.Name(id="enumerate", ctx=ast.Load()), args=[lp.iter] + ([] if start.value == 0 else [copy.deepcopy(start)]), keywords=[])
+    loop = ast.For(target=ast.Tuple(elts=[ast.Name(id=c, ctx=ast.Store()), lp.target], ctx=ast.Store()), iter=call, body=lp.body[:-1], orelse=[])
+    STATS["counter"] = STATS.get("counter", 0) + 1
+    return _loc(loop, lp), init
+
+
 def _hoist_verdict(st, fx):
     if not (isinstance(st, ast.If) and isinstance(st.test, ast.Compare) and len(st.test.ops) == 1
             and isinstance(st.test.left, ast.Call) and isinstance(st.test.left.func, ast.Attribute)
@@ -541,6 +637,18 @@ def _block(stmts, fx, occ, top=False):
                 stmts[k] = loop
                 del stmts[init]
                 k -= 1
+        elif isinstance(stmts[k], ast.For):
+            def tail_reads2(name, _stmts=stmts, _k=k):
+                if top:
+                    return False
+                inside = sum(1 for s_ in _stmts for n in ast.walk(s_) if isinstance(n, ast.Name) and n.id == name)
+                return occ.get(name, 0) != inside
+            r = _counter_to_enum(stmts, k, tail_reads2)
+            if r is not None:
+                loop, init = r
+                stmts[k] = loop
+                del stmts[init]
+                k -= 1
         k += 1
     out = []
     for st in stmts:
@@ -569,6 +677,9 @@ def _stmt(st, fx, occ):
             STATS["unenum"] = STATS.get("unenum", 0) + 1
             st.target = st.target.elts[1]
             st.iter = st.iter.args[0]
+    r = _enum_to_range(st)
+    if r is not None:
+        return _block(r, fx, occ)
     if isinstance(st, ast.If) and st.orelse and _terminates(st.body):
         # else after a branch that never falls through
         STATS["else"] = STATS.get("else", 0) + 1
@@ -749,6 +860,10 @@ def normalize_function(fn):
         elif isinstance(n, ast.arg):
             occ[n.arg] = occ.get(n.arg, 0) + 1
     fn.body = _block(fn.body, fx, occ, top=True)
+    if UNALIAS[0] and _unalias_once(fn):
+        # aliases that only became visible after tuple assignments were split
+        _unalias(fn)
+        fn.body = _block(fn.body, fx, occ, top=True)
     STATS["functions"] += 1
     return fn
 
